@@ -198,6 +198,8 @@ def plan(apk_name, sig_name):
     o = _find_unique(blob, d)
     if o is not None:
         regions["sid"] = (sig_name, blob, o, o + len(d))
+    # the outer DER structure of the block (ContentInfo / SignedData tags and lengths): a block that cannot even be parsed
+    regions["block-head"] = (sig_name, blob, 0, min(24, len(blob)))
     # the other signature blocks of the same archive (queried on the same APK object as "earlier work")
     others = []
     other_certs = []
@@ -210,7 +212,7 @@ def plan(apk_name, sig_name):
                 oc = None
             other_certs.append(oc)
     return {"raw": raw, "archive": ar, "regions": regions, "kalg": kalg, "cert": cert, "blob": blob, "sf": sf,
-            "others": others, "cert_is_unique": cert not in other_certs}, None
+            "others": others, "cert_is_unique": cert not in other_certs, "other_certs": [c for c in other_certs if c]}, None
 
 
 def equivalent(region, blob0, blob1):
@@ -307,7 +309,7 @@ def tamper(p, sig_name, region, off, val, max_sdk=None, others_first=False, twin
     except Exception as e:
         c = None
         detail = "exc:" + type(e).__name__
-    if a is not None and (c is not None or p["cert_is_unique"]):
+    if a is not None:
         # the second observation point: the verified-certificate list must not contain the tampered block's certificate
         try:
             v1 = [x.dump() for x in a.get_certificates_v1()]
@@ -316,6 +318,13 @@ def tamper(p, sig_name, region, off, val, max_sdk=None, others_first=False, twin
         if c is None and p["cert_is_unique"] and p["cert"] in v1:
             c = p["cert"]
             detail = "certificate-in-v1-list-only"
+        elif c is None and len(v1) > len(p["other_certs"]):
+            # more certificates than blocks that can verify: one of them is reported for the altered block
+            from collections import Counter
+            extra = Counter(v1) - Counter(p["other_certs"])
+            if extra:
+                c = next(iter(extra))
+                detail = "extra-certificate-in-v1-list(%d for %d verifying blocks)" % (len(v1), len(p["other_certs"]))
         elif c is not None:
             detail += "+v1list=%d" % len(v1)
     return c, detail, bytes(d)
